@@ -102,6 +102,7 @@ class Ctx:
         self.control = set()
         self.realnames = set()
         self.shared = {}
+        self.nonneg_fps = set()
         self.datavars = set()
         self.nfresh = 0
         self.solver = z3.Solver()
@@ -511,6 +512,8 @@ class SymReal:
 
     # -- comparisons
     def _cmp(s, o, op, pin=False):
+        if isinstance(o, float) and (o != o or o in (float("inf"), float("-inf"))):
+            return op(0.0, o)  # every real compares with an infinity / NaN like 0.0 does
         o2 = SymReal.lift(o)
         if o2 is None:
             return NotImplemented
@@ -518,6 +521,13 @@ class SymReal:
             return op(s.c, o2.c)
         if not s.df and not o2.df:
             e = op(s.n, o2.n)
+        elif all(f in CTX.nonneg_fps for f in s.df) and all(f in CTX.nonneg_fps for f in o2.df):
+            # every denominator factor is a non-negative atom (root / norm) and non-zero where the quotient is defined,
+            # hence positive: compare cross-multiplied, without z3's division
+            t = SymReal._lcm(s.df, o2.df)
+            an, _ = SymReal._scale(s, t)
+            bn, _ = SymReal._scale(o2, t)
+            e = op(an, bn)
         else:
             e = op(s.term(), o2.term())
         p = None
@@ -620,6 +630,8 @@ def _atom(key, base, mkdefs, arg=None):
     for d in mkdefs(v):
         CTX.defs.append(d)
     CTX.atoms[key] = (v, arg)
+    if key[0] in ("root", "abs") or (isinstance(key[0], str) and key[0].startswith(("norm", "matnorm"))):
+        CTX.nonneg_fps.add(v.fn)
     return v
 
 
@@ -690,6 +702,7 @@ def norm2(vals):
         s = s + x * x
     CTX.defs.append(z3.And(v.n >= 0, v.n * v.n * s.d == s.n))
     CTX.atoms[key] = (v, nz)
+    CTX.nonneg_fps.add(v.fn)
     return v
 
 
@@ -1019,7 +1032,7 @@ def diff_num(a, b):
     return an - bn
 
 
-def _check(constraints, timeout_ms):
+def _check(constraints, timeout_ms, aux=False):
     s = z3.Solver()
     s.set("timeout", int(timeout_ms))
     for c in constraints:
@@ -1027,9 +1040,12 @@ def _check(constraints, timeout_ms):
     t = time.time()
     r = s.check()
     dt = time.time() - t
-    CTX.stats["queries"] += 1
     CTX.stats["solver_s"] += dt
-    CTX.stats[str(r)] += 1
+    if aux:
+        CTX.stats["aux_queries"] = CTX.stats.get("aux_queries", 0) + 1
+    else:
+        CTX.stats["queries"] += 1
+        CTX.stats[str(r)] += 1
     return str(r), s
 
 
@@ -1084,8 +1100,51 @@ def _concrete_fail(label, info, detail=None):
     CTX.concrete_failures.append(dict(label=label, detail=detail))
 
 
-def prove(label, claim, info=None):
-    """Obligation `claim` (a z3 Bool or SymBool) must hold on the current path: discharge its negation."""
+def _linearize(exprs):
+    """Replace every nonlinear monomial by a fresh variable (sound for refutation: unsat of the abstraction implies unsat)."""
+    cache, monos = {}, {}
+
+    def walk(e):
+        i = e.get_id()
+        if i in cache:
+            return cache[i]
+        if z3.is_app(e) and e.decl().kind() == z3.Z3_OP_MUL:
+            kids = [walk(c) for c in e.children()]
+            nums = [c for c in kids if z3.is_rational_value(c) or z3.is_int_value(c)]
+            rest = [c for c in kids if not (z3.is_rational_value(c) or z3.is_int_value(c))]
+            if len(rest) >= 2:
+                key = "*".join(sorted(str(c) for c in rest))
+                if key not in monos:
+                    monos[key] = z3.Real(f"mono!{len(monos)}")
+                r = monos[key]
+                for c in nums:
+                    r = c * r
+            else:
+                r = kids[0]
+                for c in kids[1:]:
+                    r = r * c
+        elif z3.is_app(e) and e.num_args() > 0:
+            r = e.decl()(*[walk(c) for c in e.children()])
+        else:
+            r = e
+        cache[i] = r
+        return r
+
+    return [walk(e) for e in exprs]
+
+
+def _require_feasible():
+    """A concretely false claim only counts on a feasible path (data forks are not checked for feasibility when taken)."""
+    if CTX.pc_data == 0 and not CTX.assumptions:
+        return
+    r, _ = _check(CTX.pc + CTX.defs, CTX.opts.get("reach_timeout_ms", 10000), aux=True)
+    if r == "unsat":
+        raise PathEnd("infeasible path (contradictory data conditions)")
+
+
+def prove(label, claim, info=None, context=None):
+    """Obligation `claim` (a z3 Bool or SymBool) must hold on the current path: discharge its negation.
+    `context`: optional subset of the path condition that suffices (sound: fewer hypotheses)."""
     if CTX.mode == "concrete":
         CTX.stats["obligations"] += 1
         if not bool(claim):
@@ -1097,6 +1156,7 @@ def prove(label, claim, info=None):
             CTX.stats["queries"] += 1
             CTX.stats["unsat"] += 1
             return True
+        _require_feasible()
         raise PathViolation(_viol(label, None, info, concrete=True))
     e = claim.e if isinstance(claim, SymBool) else claim
     CTX.stats["obligations"] += 1
@@ -1107,6 +1167,17 @@ def prove(label, claim, info=None):
         CTX.stats["unsat"] += 1
         CTX.stats["stage1"] += 1
         return True
+    if context is not None:
+        # normal forms (sum of monomials) make equal polynomials syntactically equal, so the query becomes linear
+        nf = [z3.simplify(neg, som=True, som_blowup=100000)] + [z3.simplify(c, som=True, som_blowup=100000) for c in context]
+        r, s = _check(_linearize(nf), tmo, aux=True)
+        if r != "unsat":
+            r, s = _check(nf, tmo)
+        if r == "unsat":
+            CTX.stats["queries"] += 1
+            CTX.stats["unsat"] += 1
+            CTX.stats["stage3"] += 1
+            return True
     r, s = _check([neg] + CTX.pc + CTX.defs, tmo)
     if r == "unsat":
         CTX.stats["stage3"] += 1
@@ -1123,6 +1194,7 @@ def prove_batch(items, info=None):
         CTX.stats["obligations"] += 1
         if isinstance(claim, bool):
             if not claim:
+                _require_feasible()
                 raise PathViolation(_viol(label, None, info, concrete=True))
             continue
         e = claim.e if isinstance(claim, SymBool) else claim
@@ -1201,7 +1273,7 @@ def prove_equal(label, a, b, info=None):
     if not same_fp:
         # the fingerprints predict a real difference: look for a witness by fixing the free variables first
         # (z3's model search through root-defining constraints is slow on the sat side, DESIGN 1.1)
-        w = _search_witness(ds, nz, tries=24)
+        w = _search_witness(ds, nz, tries=8)
         if w is not None:
             CTX.stats["sat"] += 0
             raise PathViolation(_viol(label, w, info, a=a, b=b))
@@ -1247,7 +1319,7 @@ def _search_witness(dnz, nz, tries=40):
             fix.append(v == z3.RealVal(f"{rng.randint(-8, 8)}/{rng.choice([1, 2, 4])}"))
         if t % 2 == 1:
             fix = fix[len(ctrl):]  # let the solver choose the hyperparameters
-        r, s = _check(cons + fix, 2500)
+        r, s = _check(cons + fix, 2500, aux=True)
         if r == "sat":
             return s
     return None
